@@ -127,7 +127,7 @@ func runFaithful(p *pool, c fCase) (out caseOut) {
 		out.fails = append(out.fails, fail{"C17.no-hang", "hang/faithful", detail(nil)})
 		return
 	case res.Crash != "":
-		out.fails = append(out.fails, fail{"C17.no-panic", "crash/faithful/" + norm(res.Crash), detail(map[string]any{"child_died": res.Crash})})
+		out.fails = append(out.fails, fail{"C17.no-panic", "crash/faithful/" + normCrash(res.Crash), detail(map[string]any{"child_died": res.Crash})})
 		return
 	case res.Panic != "":
 		out.fails = append(out.fails, fail{"C17.no-panic", "panic/faithful/" + norm(res.Panic), detail(map[string]any{"panic": res.Panic, "stack": res.Stack})})
